@@ -598,15 +598,6 @@ def run(facts, rep, cfg="default"):
             cands = spare.get(base_of(s["key"]), [])
             if cands:
                 moved[s["key"]] = cands.pop(0)
-    spare_loose = {}
-    for ks in spare.values():
-        for k in ks:
-            spare_loose.setdefault(loose(base_of(k)), []).append(k)
-    for s in inv:
-        if s["key"] not in disp and s["key"] not in moved:
-            cands = [k for k in spare_loose.get(loose(base_of(s["key"])), []) if k not in moved.values()]
-            if cands:
-                moved[s["key"]] = cands[0]
     # ... or may have been RE-SPELLED (a sub-expression hoisted into a `let`, a field turned into a local): it is matched with
     # a listed site of the same function family whose recorded dataflow signature (rules/panic_site_sigs.json, generated from
     # the tree the table was reviewed on) equals the signature computed now.
@@ -622,6 +613,17 @@ def run(facts, rep, cfg="default"):
             cands = by_sig.get((s["key"].split("|")[1], sg), [])
             if cands and not sg.startswith(("error", "other")):
                 moved[s["key"]] = cands.pop(0)
+    spare_loose = {}
+    for ks in spare.values():
+        for k in ks:
+            spare_loose.setdefault(loose(base_of(k)), []).append(k)
+    for s in inv:
+        if s["key"] not in disp and s["key"] not in moved:
+            cands = [k for k in spare_loose.get(loose(base_of(s["key"])), []) if k not in moved.values()]
+            # prefer a listed site of the same function
+            cands.sort(key=lambda k: (k.split("|")[0] != s["key"].split("|")[0]))
+            if cands:
+                moved[s["key"]] = cands[0]
     by_abs = {}
     for (kk, sg), ks in by_sig.items():
         for k in ks:
